@@ -30,6 +30,8 @@ structure Cfg where
   writeThrough : Bool
   noPrefix : Bool
   idWrap : Bool
+  /-- the `Provider(p)` option is set -/
+  provider : Bool := false
 deriving Repr, DecidableEq
 
 structure Cid where
@@ -70,8 +72,19 @@ deriving Repr, DecidableEq
 /-- `dshelp.MultihashToDsKey` -/
 def dsKey (mh : Bytes) : Key := '/' :: encode b32 mh
 
+/-- `base32.RawStdEncoding.DecodeString` of multiformats/go-base32 on ARBITRARY input (foreign keys in
+the datastore): '\r' and '\n' are stripped first; both letter cases are accepted; any other character
+outside the alphabet is an error; a trailing group of 3 or 6 characters yields no bytes at all (the
+`switch dlen` has no case for them), other left-over bits are ignored. -/
+def decodeGo32 (s : Key) : Option Bytes :=
+  let t := s.filter fun c => c ≠ '\r' ∧ c ≠ '\n'
+  let j := t.length % 8
+  match mapOpt b32.decDigit t with
+  | none => none
+  | some _ => if j = 3 ∨ j = 6 then decode b32 (t.take (t.length - j)) else decode b32 t
+
 /-- `dshelp.BinaryFromDsKey`: `base32.RawStdEncoding.DecodeString(k.String()[1:])` -/
-def binaryFromDsKey (k : Key) : Option Bytes := decode b32 (k.drop 1)
+def binaryFromDsKey (k : Key) : Option Bytes := decodeGo32 (k.drop 1)
 
 def blocksPrefix : Key := "/blocks".toList
 def blocksSlash : Key := "/blocks/".toList
@@ -209,6 +222,35 @@ def idStep (cfg : Cfg) (s : Store) : Op → Store × Out
     | none => (s, bsGetSize cfg s c)
   | .view c => (s, idGet cfg s c)        -- viewer == nil: View = Get + callback
   | .allKeys => (s, .keys (bsAllKeys cfg s))
+
+/-! ### the Provider option (`StartProviding(false, hashes...)` calls made by one operation) -/
+
+/-- `Put`: one call with the block's multihash, only when the datastore write happened -/
+def bsProvidedPut (cfg : Cfg) (s : Store) (b : Blk) : List (List Bytes) :=
+  if !cfg.writeThrough && (AMap.find s (rk cfg b.cid.mh)).isSome then [] else [[b.cid.mh]]
+
+/-- `PutMany`: the one-block fast path is `Put`; the batch path makes ONE call with the multihashes
+of ALL blocks passed in — also of those whose write was skipped, and also when there are none -/
+def bsProvidedPutMany (cfg : Cfg) (s : Store) (bs : List Blk) : List (List Bytes) :=
+  match bs with
+  | [b] => bsProvidedPut cfg s b
+  | _ => [bs.map (·.cid.mh)]
+
+/-- calls received by the provider during `op` in state `s` (the identity layer filters first) -/
+def provided (cfg : Cfg) (s : Store) (op : Op) : List (List Bytes) :=
+  if !cfg.provider then []
+  else match op with
+    | .put b =>
+      if cfg.idWrap && (extractContents b.cid).isSome then [] else bsProvidedPut cfg s b
+    | .putMany bs =>
+      bsProvidedPutMany cfg s (if cfg.idWrap then bs.filter fun b => (extractContents b.cid).isNone else bs)
+    | _ => []
+
+/-- `AllKeysChanWithErr` whose consumer stops (context cancelled) after the producer delivered `j`
+keys: the keys delivered, and whether the error function reports an error (it does exactly when the
+enumeration was cut short; `j ≥` number of keys = ran to completion) -/
+def bsAllKeysCut (cfg : Cfg) (s : Store) (j : Nat) : List Bytes × Bool :=
+  ((bsAllKeys cfg s).take j, decide (j < (bsAllKeys cfg s).length))
 
 def step (cfg : Cfg) (s : Store) (op : Op) : Store × Out :=
   if cfg.idWrap then idStep cfg s op else bsStep cfg s op
